@@ -58,6 +58,8 @@ def run_property(run, formats=None, relevant=None):
             continue
         syms = ob.get(which, [])
         judged_tokens += ob.get("n_tokens", 0)
+        for o in ob.get("options_effective", []):
+            run.count(f"documents_where_option_{o}_changes_the_text")
         if not feat:
             accepted_clean[fmt] += 1
         elif not twin:
@@ -81,6 +83,8 @@ def run_property(run, formats=None, relevant=None):
         run.require(f"clean_accepted_{f}", n, min(30, n_clean))
     for (f, feat), n in feat_pairs.items():
         run.count(f"risky_pairs_{f}_{feat}", n)
+    if pid == "C03" and "pptx" in formats:
+        run.require("documents_where_option_include_image_captions_changes_the_text", run.counters.get("documents_where_option_include_image_captions_changes_the_text", 0), 5)
     run.extras["formats"] = formats
     run.extras["features"] = {f: sorted(docs.BUILDERS[f][1]) for f in formats}
 
